@@ -1,5 +1,7 @@
 (* C17: configuration contexts, the `pure` specification, the thread system
-     cfg <op;op;...> [current|fixed]    (same grammar as harness/h_cfg.c)
+     cfg <op;op;...> [<g><n>]           (same grammar as harness/h_cfg.c); variant of the code, probed by
+                                        tools/props/c17.py: g = h|m (get_err_misc returns the handler | misc),
+                                        n = c|o (decref/auto of NULL crashes | is tolerated); default "hc"
      pure <function> <args...>          one "=" per JSON argument ("-" for a NULL one)
      threads <n> <seed>                 OK | DIFF <thread>                                  *)
 open Model
@@ -74,7 +76,8 @@ let show_token = function
 
 let () =
   register "cfg" (fun f ->
-    let v = if Array.length f > 2 && f.(2) = "fixed" then Fixed else Current in
+    let vs = if Array.length f > 2 && String.length f.(2) = 2 then f.(2) else "hc" in
+    let v = { get_returns_misc = (vs.[0] = 'm'); decref_null_ok = (vs.[1] = 'o') } in
     let ops = List.map parse_op (List.filter (fun s -> s <> "") (String.split_on_char ';' f.(1))) in
     let outs = crun_out v cinit ops in
     if List.mem OCrash outs then "CRASH"
